@@ -102,7 +102,8 @@ class World:
     per-execution counter.
     """
 
-    def __init__(self, decide, decisions=None, run_id=0):
+    def __init__(self, decide, decisions=None, run_id=0, ctx=None):
+        self.ctx = ctx
         self.decide = decide
         self.decisions = decisions if decisions is not None else {}
         self.run_id = run_id
@@ -112,6 +113,7 @@ class World:
         self.fresh = 0
         self.choice_calls = []
         self.weight_choice = 1
+        self.draws = []
 
     # --- python `random` module ----------------------------------------
     def seed(self, s=None):
@@ -175,15 +177,39 @@ class RngStub:
             out[k] = vals[idx]
         return out[0] if size is None else out
 
+    def _name(self, kind):
+        w = self.world
+        if self.seed is None:
+            w.fresh += 1
+            return f"{kind}_fresh{w.run_id}_{w.fresh}"
+        self.count += 1
+        return f"{kind}_seed[{self.seed}]_{self.count}"
+
     def random(self):
-        return self.world.random()
+        """uniform on [0,1) as an arithmetic value (solver variable / float)"""
+        w = self.world
+        if w.ctx is None:
+            return w.random()
+        u = w.ctx.real(self._name("u"), 0, 1)
+        w.ctx.assume(u < 1)
+        w.draws.append(u)
+        return u
 
     def normal(self, loc=0.0, scale=1.0, size=None):
-        self.world.fresh += 1
-        return alg.var(f"normal#{self.world.run_id}_{self.world.fresh}")
+        w = self.world
+        w.normal_draws = getattr(w, "normal_draws", 0) + 1
+        if w.normal_draws > getattr(w, "max_normal_draws", 6):
+            raise alg.OutOfBound("more Gaussian resampling iterations than the unrolling bound")
+        if w.ctx is None:
+            return alg.var(self._name("normal"))
+        v = w.ctx.real(self._name("g"), -3, 3)
+        w.draws.append(v)
+        return v
 
     def integers(self, low, high=None):
-        raise alg.Unsupported("rng.integers")
+        # a derived sub-seed: deterministic function of (seed, k)
+        self.count += 1
+        return ("sub", self.seed, self.count)
 
     def permutation(self, x):
         raise alg.Unsupported("rng.permutation")
